@@ -29,7 +29,7 @@ import (
 )
 
 var (
-	genPath   = flag.String("gen", "", "write Gen/Regexes.lean to this path and exit")
+	genPath   = flag.String("gen", "", "write Gen/Re_<fmt>.lean and Gen/Regexes.lean into this directory and exit")
 	casesPath = flag.String("cases", "", "evaluate the `fmt hex` lines of this file instead of generating")
 	repoPath  = flag.String("repo", "", "library working tree (default $VERIF_REPO or /repo)")
 )
